@@ -196,6 +196,7 @@ def run_pool(engine_name, tier, seed, total, chunk, workers, budget_s, hard_time
     t0 = time.time()
     next_start = 0
     pending = {}
+    base_tmp()  # created before the fork: the workers inherit it, and this process removes it at exit
     with cf.ProcessPoolExecutor(max_workers=workers, mp_context=ctx) as pool:
         try:
             def can_submit():
